@@ -333,6 +333,25 @@ func (fr *frame) libCall(instr *ssa.Call, callee *ssa.Function, name string, sig
 		fr.setResult(instr, Val{T: Term{res, SSlice}})
 		ft.e.usedExternals["slices.Sorted(maps.Keys(m))"] = "model: fresh slice holding exactly the keys of m"
 		return reach, true
+	case "slices.Reverse":
+		// in-place reversal: s[j] becomes old s[len-1-j], nothing else changes
+		if instr == nil || len(instr.Call.Args) != 1 {
+			return reach, false
+		}
+		stp, ok := instr.Call.Args[0].Type().Underlying().(*types.Slice)
+		if !ok {
+			return reach, false
+		}
+		h, es := u.elemHeap(stp.Elem())
+		sv := ft.termOf(args[0], instr.Call.Args[0].Type())
+		oldArr := ft.define("rev_old", arraySort(SInt, es), sel(ft.heapTerm(st, h), sx("sbase", sv.S)))
+		na := ft.fresh("rev_arr", arraySort(SInt, es))
+		n := sx("slen", sv.S)
+		ft.assume("true", fmt.Sprintf("(forall ((j Int)) (! (=> (and (<= 0 j) (< j %s)) (= (select %s (ix %s j)) (select %s (ix %s (- (- %s 1) j))))) :pattern ((select %s (ix %s j)))))", n, na, sv.S, oldArr, sv.S, n, na, sv.S))
+		ft.assume("true", fmt.Sprintf("(forall ((k Int)) (! (=> (or (< k (soff %s)) (>= k (+ (soff %s) %s))) (= (select %s k) (select %s k))) :pattern ((select %s k))))", sv.S, sv.S, n, na, oldArr, na))
+		ft.setHeap(st, h, ite(eq(sx("sbase", sv.S), "null"), ft.heapTerm(st, h), store(ft.heapTerm(st, h), sx("sbase", sv.S), na)))
+		ft.e.usedExternals[name] = "model: in-place reversal"
+		return reach, true
 	case "fmt.Sprintf":
 		// a constant format with literal text yields a non-empty string
 		if instr == nil || len(instr.Call.Args) < 1 {
